@@ -694,8 +694,24 @@ fn elst_s(max: usize) -> impl Strategy<Value = ElstS> {
     })
 }
 
+/// a parameter set: arbitrary bytes, or - as when a caller passes units straight from an Annex B
+/// elementary stream - a start code, a NAL header of a plausible type, and a few bytes
+fn nal(n: usize) -> impl Strategy<Value = Vec<u8>> {
+    prop_oneof![
+        4 => bytes(n).boxed(),
+        1 => (any::<bool>(), prop_oneof![Just(0x67u8), Just(0x68), Just(0x27), Just(0x28), Just(0x6d), Just(0x65), Just(0x41), Just(0x06), Just(0x09), Just(0x40), Just(0x42), Just(0x44), any::<u8>()], bytes(n))
+            .prop_map(|(four, hdr, rest)| {
+                let mut v = if four { vec![0, 0, 0, 1] } else { vec![0, 0, 1] };
+                v.push(hdr);
+                v.extend(rest);
+                v
+            })
+            .boxed(),
+    ]
+}
+
 fn avcc_s(max: usize) -> impl Strategy<Value = AvcCS> {
-    (u8v(), u8v(), u8v(), u8v(), 0u8..4, prop::collection::vec(bytes(9), 0..=max), prop::collection::vec(bytes(9), 0..=max)).prop_map(|(config_version, profile, compat, level, length_size_minus_one, sps, pps)| AvcCS { config_version, profile, compat, level, length_size_minus_one, sps, pps })
+    (u8v(), u8v(), u8v(), u8v(), 0u8..4, prop::collection::vec(nal(9), 0..=max), prop::collection::vec(nal(9), 0..=max)).prop_map(|(config_version, profile, compat, level, length_size_minus_one, sps, pps)| AvcCS { config_version, profile, compat, level, length_size_minus_one, sps, pps })
 }
 
 fn visual_s() -> impl Strategy<Value = VisualS> {
@@ -707,7 +723,7 @@ fn hvcc_s(max: usize) -> impl Strategy<Value = HvcC> {
         (u8v(), 0u8..4, any::<bool>(), 0u8..32, u32v(), u64v(), u8v()),
         (0u16..4096, 0u8..4, 0u8..4, 0u8..8, 0u8..8, u16v()),
         (0u8..4, 0u8..8, any::<bool>(), 0u8..4),
-        prop::collection::vec((any::<bool>(), 0u8..64, prop::collection::vec(bytes(7), 0..=max)), 0..=max),
+        prop::collection::vec((any::<bool>(), 0u8..64, prop::collection::vec(nal(7), 0..=max)), 0..=max),
     )
         .prop_map(|((configuration_version, general_profile_space, general_tier_flag, general_profile_idc, compat, constraint, general_level_idc), (min_spatial_segmentation_idc, parallelism_type, chroma_format_idc, bit_depth_luma_minus8, bit_depth_chroma_minus8, avg_frame_rate), (constant_frame_rate, num_temporal_layers, temporal_id_nested, length_size_minus_one), arrays)| HvcC {
             configuration_version,
